@@ -435,10 +435,16 @@ func c14DoHScenario(c *choice.Ctx, rep *report.R) {
 		panic(err)
 	}
 	n := 1 + c.Choose(2, "n")
+	// a query of 5000 octets (EDNS0 padding): far beyond what fits a short URL - however the transport chooses to send it (a long
+	// GET, or a POST whose body the HTTP stack may read after the response has come back), the bytes on the wire are the query
+	bigQ := c.Deviate(2, "query-of-5000-octets") == 1
+	if bigQ {
+		n = 1
+	}
 	var calls []*call
 	var outcomes []string
 	fail := func(sig, msg string) {
-		rep.Violate("C14:doh:"+sig, msg+fmt.Sprintf("\n  doh outcomes=%v", outcomes), map[string]any{"Choices": c.Choices(), "Kind": "doh"})
+		rep.Violate("C14:doh:"+sig, msg+fmt.Sprintf("\n  doh outcomes=%v big-query=%v", outcomes, bigQ), map[string]any{"Choices": c.Choices(), "Kind": "doh"})
 	}
 	for i := 0; i < n; i++ {
 		outcomes = append(outcomes, c14DoHOutcomes[c.Deviate(len(c14DoHOutcomes), fmt.Sprintf("outcome%d", i))])
@@ -447,12 +453,18 @@ func c14DoHScenario(c *choice.Ctx, rep *report.R) {
 	const timeout = 2 * time.Second
 	for i := 0; i < n; i++ {
 		cl := newCall(i, 0)
+		if bigQ {
+			qm := refdns.Query(cl.id, cl.name, refdns.TypeA, 1)
+			qm.Ar = []refdns.RR{refdns.OPT(1232, 0, refdns.Option(12, make([]byte, 5000-len(cl.wire)-15)))}
+			cl.wire = qm.Encode(false)
+		}
 		calls = append(calls, cl)
 		cl.start(tr, timeout)
 	}
 	t0 := time.Now()
 	wait()
 	rs := rt.reqs()
+	var lateBodies []io.Reader
 	if len(rs) != n {
 		fail("request-count", fmt.Sprintf("%d HTTP requests for %d exchanges", len(rs), n))
 	}
@@ -463,6 +475,11 @@ func c14DoHScenario(c *choice.Ctx, rep *report.R) {
 	for _, r := range rs {
 		q := r.req.URL.Query().Get("dns")
 		wire, _ := b64(q)
+		if r.req.Method == "POST" && r.req.Body != nil && n == 1 {
+			// the body is read later, as an HTTP stack may do: after the response was delivered and the exchange has returned
+			lateBodies = append(lateBodies, r.req.Body)
+			wire = append([]byte{0, 0}, calls[0].wire[2:]...)
+		}
 		qm, derr := refdns.Decode(wire)
 		if derr != nil {
 			fail("bad-request", "dns parameter does not decode")
@@ -482,7 +499,7 @@ func c14DoHScenario(c *choice.Ctx, rep *report.R) {
 			fail("bad-request", "request for an unknown question")
 			continue
 		}
-		if r.req.Header.Get("Accept") != "application/dns-message" || r.req.Method != "GET" {
+		if r.req.Header.Get("Accept") != "application/dns-message" || (r.req.Method != "GET" && !(r.req.Method == "POST" && r.req.Header.Get("Content-Type") == "application/dns-message")) {
 			fail("bad-request", "method/accept header")
 		}
 		ans := env.Answer(qm, byte(i+1), 60).Encode(false)
@@ -536,6 +553,15 @@ func c14DoHScenario(c *choice.Ctx, rep *report.R) {
 			} else if !cl.doneAt.Equal(t0) {
 				fail("fault-reported-late:"+outcomes[i], fmt.Sprintf("exchange %d returned after %v", i, cl.doneAt.Sub(t0)))
 			}
+		}
+	}
+	for _, lb := range lateBodies {
+		b, _ := io.ReadAll(lb)
+		want := append([]byte{0, 0}, calls[0].wire[2:]...)
+		if t := own.Tainted(b); t != "" {
+			fail("tainted-wire", fmt.Sprintf("the request body, read after the response had been delivered, carries %s", t))
+		} else if !bytes.Equal(b, want) {
+			fail("request-body-changed", fmt.Sprintf("the request body, read after the response had been delivered, is not the query (%d octets, want %d)", len(b), len(want)))
 		}
 	}
 	hsleep(timeout)
